@@ -54,7 +54,11 @@ func c02Desc(cs c02Case) string {
 	return fmt.Sprintf("Alloc[%s](C=%d,L=%d,K=%d)+%d samples, path %v:", cs.Type, cs.C, cs.L, cs.K, cs.R, cs.Path)
 }
 
-func c02Run(cs c02Case) (fs []F) {
+func c02Run(cs c02Case) []F {
+	return core.Guard("Slice", func() []F { return c02RunRaw(cs) })
+}
+
+func c02RunRaw(cs c02Case) (fs []F) {
 	_, obs, cur, st, mcur, fs := c02Build(cs)
 	if len(fs) > 0 {
 		return
@@ -237,7 +241,7 @@ func init() {
 				}
 			}
 			for _, t := range []int{dyn.Int8, dyn.Float64} { // many channels
-				for _, C := range []int{9, 17, 65} {
+				for _, C := range []int{9, 17, 65, 256, 300, 1024} {
 					bigJobs = append(bigJobs, job{t, root{C, 1, 3, 0}}, job{t, root{C, 3, 3, 0}})
 				}
 			}
